@@ -73,3 +73,18 @@ Theorem gen_converter_fields : forall h,
   field_ty H.new_helper_table h "inputConverter" = gh_conv_in (Some h) /\
   field_ty H.new_helper_table h "outputConverter" = gh_conv_out (Some h).
 Proof. intros [i o]; split; reflexivity. Qed.
+
+(* WithInputKey / WithOutputKey (graphNode.getGenericHelper): every field of the keyed side is a new
+   instantiation at map[string]any, every field of the other side is the receiver's own: field by
+   field the helper (map[string]any, o) / (i, map[string]any) *)
+Theorem gen_for_map_input_agrees : forall m i o h', gh_for_map_in m (Some (i, o)) = Some h' ->
+  map fst H.map_input_table = (filter (fun f => is_prefix "output" f) H.helper_fields ++ filter (fun f => is_prefix "input" f) H.helper_fields)%list /\
+  forall f, In f H.helper_fields ->
+    keyed_field_ty H.new_helper_table H.map_input_table m (i, o) f = field_ty H.new_helper_table h' f.
+Proof. intros m i o h' E. inversion E; subst h'. split; [reflexivity|]. intros f Hf. fields Hf. Qed.
+
+Theorem gen_for_map_output_agrees : forall m i o h', gh_for_map_out m (Some (i, o)) = Some h' ->
+  map fst H.map_output_table = (filter (fun f => is_prefix "input" f) H.helper_fields ++ filter (fun f => is_prefix "output" f) H.helper_fields)%list /\
+  forall f, In f H.helper_fields ->
+    keyed_field_ty H.new_helper_table H.map_output_table m (i, o) f = field_ty H.new_helper_table h' f.
+Proof. intros m i o h' E. inversion E; subst h'. split; [reflexivity|]. intros f Hf. fields Hf. Qed.
